@@ -310,6 +310,10 @@ def known_findings():
 def finding_matches(f, pid, fail):
     if pid not in f.get('properties', [f.get('property')]):
         return False
+    # a finding must pin down the failing obligation; entries identified by a bounded harness (id only) never
+    # match a proof failure, so that a different violation of the same property is still reported
+    if not (f.get('obligation') or f.get('message_contains') or f.get('text_contains')):
+        return False
     if f.get('obligation') and f['obligation'] != fail['obligation']:
         return False
     if f.get('message_contains') and f['message_contains'] not in fail['message']:
